@@ -181,6 +181,27 @@ var stdLevelOf = map[int]int{model.Debug: -4, model.Info: 0, model.Warn: 4, mode
 
 func jsonMarshal(v any) ([]byte, error) { return json.Marshal(v) }
 
+// worldTerminatingSlogLevels: the log/slog level values of this build's explicit Fatal and Panic constants
+// (reported by the world when it starts) - the only log/slog levels that may map to a terminating severity.
+func worldTerminatingSlogLevels(run *orch.Run) map[int]bool {
+	out := map[int]bool{}
+	for _, e := range run.Events {
+		if e.K != "start" {
+			continue
+		}
+		var v struct {
+			T []int `json:"slog_terminating"`
+		}
+		if json.Unmarshal(e.V, &v) == nil {
+			for _, l := range v.T {
+				out[l] = true
+			}
+		}
+		break
+	}
+	return out
+}
+
 // worldLevelName is the name this build of logg prints for a built-in level (reported by the
 // world when it starts); registered and unknown values fall back to the model's rendering,
 // which is only used in messages.
